@@ -196,6 +196,33 @@ def run(ctx):
     _, ssumm = c03.replay_shapes(ctx, sdrv, "IndexLayout_real_small.cfg" if quick else "IndexLayout_real.cfg", "c14:lid-range", only_search=True)
     for k in tot:
         tot[k] += ssumm[k]
+    # the time borders themselves: which fraction is visited first and when the search may stop early rests on the
+    # fractions' From/To (List.Sort, calcEnsuredIDsCount) - MultiFrac.tla's store family (C05's module) - and on From/To
+    # being kept right when a bulk only partly repeats documents (metaDataCollector.Filter) - Redeliver.tla (C17's module)
+    mdrv = vlib.build_driver("multifrac")
+    mcf = os.path.join(sc, "tp-multifrac.jsonl")
+    r3 = vlib.run_tlc(ctx, "MultiFrac.tla", "MultiFrac_store.cfg", case_file=mcf, timeout=3400)
+    if r3.violated:
+        raise vlib.Infra("TLC: %s violated in MultiFrac.tla" % r3.violated)
+    vlib.require_tlc_ok(r3, "MultiFrac store (for C14)")
+    mism, msumm, _ = vlib.run_cases(ctx, mdrv, ["-workers", W], mcf, label="borders-multifrac")
+    for k in tot:
+        tot[k] += msumm[k]
+    for m in mism:
+        ctx.violation("c14:borders:multifrac:%s" % (m.get("what") or "")[:20], m,
+                      what="search over fractions with overlapping time ranges hides a document of the range: " + str(m.get("what"))[:120])
+    rdrv = vlib.build_driver("redeliver")
+    rcf = os.path.join(sc, "tp-redeliver.jsonl")
+    r4 = vlib.run_tlc(ctx, "Redeliver.tla", "Redeliver_exh.cfg", case_file=rcf, workers=1, timeout=3400)
+    if r4.violated:
+        raise vlib.Infra("TLC: %s violated in Redeliver.tla" % r4.violated)
+    vlib.require_tlc_ok(r4, "Redeliver (for C14)")
+    mism, rsumm, _ = vlib.run_cases(ctx, rdrv, ["-workers", W], rcf, label="borders-redeliver", timeout=3400)
+    for k in tot:
+        tot[k] += rsumm[k]
+    for m in mism:
+        ctx.violation("c14:borders:redeliver:%s:%s" % (m.get("op"), (m.get("what") or "")[:24]), m,
+                      what="after a partly repeated bulk a document inside the fraction's real time range is hidden: " + str(m.get("what"))[:160])
     st = {"stores": 0, "fractions": 0, "with_distribution": 0, "with_docs_older_than_24h": 0, "with_future_docs": 0,
           "max_docs_in_fraction": 0, "fractions_over_one_id_block": 0, "queries": 0, "queries_nonempty": 0,
           "pairs_border_pass": 0, "pairs_rejected_by_borders": 0, "pairs_rejected_by_occupancy_map": 0}
